@@ -357,6 +357,25 @@ class ArityReader:
             for key, val0 in p.order:
                 val = p.atoms.get(key, val0)
                 rw = w.raw.get((key, val)) or w.raw.get((key, val0))
+                if key[0] == "int" and key in w.exprs:
+                    # a `match` on an integer (`Self::Exactly(1)`, `matches!(len, 0 | 1)`): the switched quantity is the
+                    # descriptor's payload (a constant once the descriptor is fixed) or the length
+                    subj = self.value(w.exprs[key], num)
+                    if isinstance(subj, int) and not isinstance(subj, bool):
+                        holds_ = (subj == val) if isinstance(val, int) else (subj not in val[1] if isinstance(val, tuple) and val and val[0] == "not" else None)
+                        if holds_ is None:
+                            raise Unread("integer switch of the arity predicate not understood")
+                        if not holds_:
+                            iv = []
+                        continue
+                    if subj == ("LEN",):
+                        if isinstance(val, int):
+                            iv = _meet_iv(iv, [(val, val)])
+                        elif isinstance(val, tuple) and val and val[0] == "not":
+                            iv = _meet_iv(iv, _not_iv(_merge_iv([(c_, c_) for c_ in sorted(val[1])])))
+                        else:
+                            raise Unread("integer switch of the arity predicate not understood")
+                        continue
                 if key[0] == "variant" or rw is None or key[0] == "int":
                     raise Unread("the arity predicate asks something that is not a comparison: %s" % (show_expr(w.exprs[key])[:80] if key in w.exprs else key[0]))
                 iv = _meet_iv(iv, self.holds(rw[0], rw[1], num))
@@ -412,12 +431,15 @@ def find_roles(facts, tables, disp):
     if "unary" not in roles or "check" not in roles:
         raise Inconclusive("length-check / unary-acceptance calls not found in the dispatcher or its helpers")
     chk = facts.body(roles["check"][0])
-    for bi, t in chk.calls():
-        c = callee_of(t)
-        if c and c["local"]:
-            it = facts.items.get(c["key"])
-            if it and it["output"] == "bool" and len(it.get("inputs", [])) == 2 and it["inputs"][0].endswith(desc_adt):
-                roles["valid"] = (c["key"], bi)
+    # the predicate may be asked inside a closure of the check (`Some(len).filter(|l| self.is_valid_len(l)).ok_or_else(..)`)
+    for cb_ in [chk] + [x for x in facts.bodies.values() if x.kind == "closure" and x.key.startswith(chk.key + "::{closure#")]:
+        for bi, t in cb_.calls():
+            c = callee_of(t)
+            if c and c["local"]:
+                it = facts.items.get(c["key"])
+                if it and it["output"] == "bool" and len(it.get("inputs", [])) == 2 and it["inputs"][0].endswith(desc_adt):
+                    if "valid" not in roles or cb_ is chk:
+                        roles["valid"] = (c["key"], bi if cb_ is chk else None)
     if "valid" not in roles:
         raise Inconclusive("length predicate not found inside the length check")
     return roles
@@ -934,23 +956,63 @@ def k34_structural(ctx, facts, disp, roles, cfg):
     # the check itself: Err exactly when the predicate is false
     cb = facts.body(chk_key)
     vkey, vbi = roles["valid"]
-    vt = cb.blocks[vbi]["term"]
-    args_ok = [strip_refs(cb.trace(a)) for a in vt["args"]] == [("arg", 1), ("arg", 2)]
-    passed_ = [strip_refs(cb.trace(a)) for a in vt["args"]]
-    narrowed_ = [x[3] for x in passed_[1:2] if x[0] == "cast" and len(x) > 3 and strip_refs(x[2]) == ("arg", 2) and x[3] not in WIDE]
-    ctx.check(args_ok, "K3.check-args", "length check forwards (descriptor, length) (%s)" % cfg,
-              "the length check does not pass its own descriptor and length to the predicate" + ((": the operand count is converted to %s first, so counts are checked modulo 2^bits — surplus operands are accepted and valid long lists rejected" % narrowed_[0]) if narrowed_ else (" (it passes %s)" % [show_expr(x)[:60] for x in passed_])), where=cb.where(vbi), fn=cb.key)
-    sw = [bi for bi in cb.reachable() if cb.blocks[bi]["term"]["k"] == "SwitchInt" and strip_refs(cb.trace(cb.blocks[bi]["term"]["discr"]))[0] == "call" and strip_refs(cb.trace(cb.blocks[bi]["term"]["discr"]))[1].get("key") == vkey]
-    ctx.need(len(sw) == 1, "length check does not branch exactly once on the predicate")
-    for want, variant in ((True, "Ok"), (False, "Err")):
-        tgt = bool_edge(cb, sw[0], want)
-        blocks = cb.reachable(tgt)
-        with cb.restricted(blocks):
-            r = cb.trace(0)
-        good = r[0] == "agg" and r[1].get("variant") == variant
-        ctx.check(good, "K3.check-%s" % variant, "predicate %s → %s (%s)" % (want, variant, cfg),
-                  "when the length predicate is %s the length check returns %s instead of %s" % (want, show_expr(r), variant),
-                  where=cb.where(sw[0]), nontrivial=True, fn=cb.key)
+    if vbi is None:
+        # the predicate is asked inside a closure of the check (`Some(len).filter(|l| self.is_valid_len(l)).ok_or_else(..)`):
+        # read the check on its decision cases — Option/Result plumbing in case normal form — instead of on its blocks
+        from . import optnorm
+        cases = optnorm.decision_cases(facts, cb)
+        if cases is None:
+            for variant in ("Ok", "Err"):
+                ctx.unread("K3.check-%s" % variant, "predicate → %s (%s)" % (variant, cfg), "the length check cannot be summarised", where=cb.where(), fn=cb.key)
+        seen_truth = set()
+        for conds, v, pth in (cases or []):
+            truth, ex = None, None
+            for k, val in conds.items():
+                e_ = (cases.exprs or {}).get(k)
+                if e_ is None:
+                    e_ = optnorm.SRC_EXPRS.get(k)
+                e_ = strip_refs(e_) if e_ is not None else None
+                if e_ is not None and e_[0] == "call" and e_[1] and e_[1].get("key") == vkey and isinstance(val, bool):
+                    truth, ex = val, e_
+            if truth is None:
+                ctx.unread("K3.check-Ok", "predicate True → Ok (%s)" % cfg, "a case of the length check does not depend on the predicate: %s" % show_expr(strip_refs(v))[:80], where=cb.where(), fn=cb.key)
+                continue
+            seen_truth.add(truth)
+            vv = strip_refs(v)
+            variant = vv[1].get("variant") if vv[0] == "agg" else ("Err" if (vv[0] == "call" and vv[1] and "from_residual" in vv[1]["path"]) else None)
+            want = "Ok" if truth else "Err"
+            ctx.check(variant == want, "K3.check-%s" % want, "predicate %s → %s (%s)" % (truth, want, cfg),
+                      "when the length predicate is %s the length check returns %s instead of %s" % (truth, show_expr(vv)[:60], want), where=cb.where(), nontrivial=True, fn=cb.key)
+            passed_ = [strip_refs(a) for a in ex[2]]
+            def _is_param(x, n):
+                while x[0] in ("payload",) and len(x) > 2:
+                    x = strip_refs(x[2])
+                return x == ("arg", n)
+            ctx.check(len(passed_) == 2 and _is_param(passed_[0], 1) and _is_param(passed_[1], 2), "K3.check-args", "length check forwards (descriptor, length) (%s)" % cfg,
+                      "the length check does not pass its own descriptor and length to the predicate (it passes %s)" % [show_expr(x)[:60] for x in passed_], where=cb.where(), fn=cb.key)
+        if cases is not None and seen_truth != {True, False}:
+            ctx.unread("K3.check-Err", "predicate False → Err (%s)" % cfg, "only the cases %s of the predicate were read" % sorted(seen_truth), where=cb.where(), fn=cb.key)
+    def _check_blocks(ctx, cb, vkey, vbi, cfg):
+        vt = cb.blocks[vbi]["term"]
+        args_ok = [strip_refs(cb.trace(a)) for a in vt["args"]] == [("arg", 1), ("arg", 2)]
+        passed_ = [strip_refs(cb.trace(a)) for a in vt["args"]]
+        narrowed_ = [x[3] for x in passed_[1:2] if x[0] == "cast" and len(x) > 3 and strip_refs(x[2]) == ("arg", 2) and x[3] not in WIDE]
+        ctx.check(args_ok, "K3.check-args", "length check forwards (descriptor, length) (%s)" % cfg,
+                  "the length check does not pass its own descriptor and length to the predicate" + ((": the operand count is converted to %s first, so counts are checked modulo 2^bits — surplus operands are accepted and valid long lists rejected" % narrowed_[0]) if narrowed_ else (" (it passes %s)" % [show_expr(x)[:60] for x in passed_])), where=cb.where(vbi), fn=cb.key)
+        sw = [bi for bi in cb.reachable() if cb.blocks[bi]["term"]["k"] == "SwitchInt" and strip_refs(cb.trace(cb.blocks[bi]["term"]["discr"]))[0] == "call" and strip_refs(cb.trace(cb.blocks[bi]["term"]["discr"]))[1].get("key") == vkey]
+        ctx.need(len(sw) == 1, "length check does not branch exactly once on the predicate")
+        for want, variant in ((True, "Ok"), (False, "Err")):
+            tgt = bool_edge(cb, sw[0], want)
+            blocks = cb.reachable(tgt)
+            with cb.restricted(blocks):
+                r = cb.trace(0)
+            good = r[0] == "agg" and r[1].get("variant") == variant
+            ctx.check(good, "K3.check-%s" % variant, "predicate %s → %s (%s)" % (want, variant, cfg),
+                      "when the length predicate is %s the length check returns %s instead of %s" % (want, show_expr(r), variant),
+                      where=cb.where(sw[0]), nontrivial=True, fn=cb.key)
+
+    if vbi is not None:
+        _check_blocks(ctx, cb, vkey, vbi, cfg)
 
     # ---- K4: unbracketed operand
     # the operand: the Value (≠ the dispatcher's own value parameter) whose kind is switched on
